@@ -27,6 +27,18 @@ SPECS = {
                 'thorough': {'runs': 30000, 'budget_s': 1500, 'run_timeout_s': 120, 'shrink_budget_s': 180,
                              'params': {'slice_p': 0.5}},
             },
+        }, {
+            'name': 'http',
+            'module': 'scenarios.c20_service',
+            'fault_kinds': ['http_status_500', 'http_status_429', 'http_status_404', 'http_status_503_html', 'http_timeout',
+                            'http_conn_error', 'http_html_200', 'http_truncated_json', 'http_json_null',
+                            'http_json_error_object', 'http_empty_body', 'clock_jump', 'cache_partial'],
+            'tiers': {
+                'quick': {'runs': 200, 'budget_s': 45, 'run_timeout_s': 60, 'shrink_budget_s': 40,
+                          'params': {'slice_p': 0.3, 'layer': 'http'}},
+                'thorough': {'runs': 8000, 'budget_s': 600, 'run_timeout_s': 120, 'shrink_budget_s': 120,
+                             'params': {'slice_p': 0.5, 'layer': 'http'}},
+            },
         }],
         'rule': ('one run = one seeded history of 12-40 Service queries / simulator events (mine, clock advance, cache wipe, '
                  'new Service, background chain spend) over k<=4 simulated providers whose every invocation outcome is drawn '
@@ -39,10 +51,13 @@ SPECS = {
                  'which >= 1 returned data; distinct = distinct event-log digests.'),
         'state_measure': 'distinct (method, tuple of provider outcome kinds in call order, returned?, #untried providers) per _provider_execute execution',
         'components': {'real': REAL, 'stub': ['provider client classes (simkit.providers.SimClient*, subclasses of the real BaseClient)'] + STUB_COMMON,
-                       'layer_b': 'not built (real Blockstream/Mempool clients over a fake HTTP transport)'},
+                       'layer_b': 'arm http: real bitcoinlib.services.blockstream.BlockstreamClient, bitcoinlib.services.mempool.MempoolClient and '
+                                  'BaseClient.request over a fake HTTP transport (simkit.httpsim: Esplora endpoints served from the SimChain); '
+                                  'the other provider client modules are not executed'},
         'assumptions': [
             'provider stubs stand in for the ~20 real provider clients; they return the same object shapes (Transaction objects, utxo dicts, block dicts) the real clients build',
             'an answer is any return value other than False; exceptions and False are failures (as Service._provider_execute defines them)',
+            'arm http: the fake server follows the published Esplora API (newest first; up to 50 mempool + 25 confirmed transactions per first page, 25 per following page; outspend; fee-estimates / v1/fees/recommended); a call in which a request failed outright (status >= 400, time-out, refused) must raise, a call that passes a corrupted 200 body on counts as a malformed answer',
             'the exhaustive claim is limited to the slices listed under coverage.exhaustive_slices; everything else is seeded sampling',
             'reference code under /verif/ref is trusted after passing its published-vector and mainnet-block self-test',
         ],
